@@ -376,7 +376,8 @@ def d5c(chk, prog):
     """serial and parallel pileup: same rows in file order, same (bam, min_mapq, fasta) at every bedcov call"""
     fi = prog.fn(f"{COV}.interval_coverages_pileup")
     tb = Table(chk, "ordered-fanout", "interval_coverages_pileup: rows and bedcov arguments, procs=1 vs procs=3", fi.loc(), fi.qn)
-    chunks = {"c1.bed": [("chr1", 0, 40), ("chr1", 500, 0)], "c2.bed": [("chr2", 100, 70)], "c3.bed": [("chr3", 0, 10), ("chr3", 300, 100)]}
+    # the regions file is not in genomic order (chr2 before chr1; the longer of two bins with one start first): samtools keeps the file's order
+    chunks = {"c1.bed": [("chr2", 100, 70), ("chr1", 500, 0)], "c2.bed": [("chr1", 0, 40)], "c3.bed": [("chr3", 300, 100), ("chr3", 0, 10)]}
     for mq, fasta in itertools.product([0, 30], [None, "ref.fa"]):
         outs = {}
         for procs in (1, 3):
@@ -397,6 +398,13 @@ def d5c(chk, prog):
             model.prims[f"{COV}.bedcov"] = bedcov
             model.ext["concurrent.futures.ProcessPoolExecutor"] = lambda it, n=None, **k: PoolStub(it, n)
             model.method_hooks.append(pool_hook)
+
+            def read_regions(it, fname, *a, **k):
+                # what tabio.read_auto gives for the regions file: the same bins, sorted genomically
+                srt = sorted((r for c in chunks.values() for r in c), key=lambda r: (r[0], r[1]))
+                return make_ga("GenomicArray", [dict(chromosome=r[0], start=r[1], end=r[1] + 100, gene=f"g{r[1]}") for r in srt], {}, exact=True)
+            model.prims["skgenome.tabio.read_auto"] = read_regions
+            model.prims["skgenome.tabio.read"] = read_regions
             it = Interp(prog, model)
             out = tb.guard(lambda: it.run(fi.qn, ["r.bed", "s.bam", mq, procs, fasta]), f"procs={procs} min_mapq={mq} fasta={fasta}")
             if out is None:
@@ -406,8 +414,42 @@ def d5c(chk, prog):
             got = list(zip(out.cols["chromosome"].v, out.cols["start"].v, [repr(x) for x in out.cols["depth"].v])) if isinstance(out, DF) and "depth" in out.cols else None
             want = [(r[0], r[1], repr(Fr(r[2], 100) if r[2] else 0)) for r in allrows]
             ok = got is not None and [(a, b) for a, b, _ in got] == [(a, b) for a, b, _ in want] and all(same(out.cols["depth"].v[i], Fr(r[2], 100)) for i, r in enumerate(allrows))
+            ok = ok and "gene" in out.cols and list(out.cols["gene"].v) == [f"g{r[1]}" for r in allrows]          # every row keeps its own bin's name
             tb.cell(ok and calls == want_calls, dict(procs=procs, min_mapq=mq, fasta=fasta, bedcov_calls=calls, want_calls=want_calls, rows=got, want_rows=want))
     tb.done("the pileup path does not return the bins in file order with their depths, or bedcov does not get the caller's (bam, min_mapq, fasta) (serial and parallel alike)")
+
+
+def d7(chk, prog):
+    chk.clause("D7", "the index htslib will open (X.bam.bai before X.bai) is not older than the alignment file after ensure_bam_index")
+    fi = prog.fn("cnvlib.samutil.ensure_bam_index")
+    tb = Table(chk, "fresh-index", "ensure_bam_index over a modelled directory: each of the two index names absent / stale / fresh, BAM and CRAM", fi.loc(), fi.qn)
+    for ext, idx in ((".bam", ".bai"), (".cram", ".crai")):
+        for first, second in itertools.product(["absent", "stale", "fresh"], repeat=2):
+            W.reset()
+            aln = "dir/S" + ext
+            long_name, short_name = aln + idx, aln[:-1] + "i"
+            mtime = {aln: 100}
+            for name, state in ((long_name, first), (short_name, second)):
+                if state != "absent":
+                    mtime[name] = 50 if state == "stale" else 150
+            model = Model()
+            model.ext["os.path.isfile"] = lambda it, p_, mtime=mtime: p_ in mtime
+            model.ext["os.path.exists"] = lambda it, p_, mtime=mtime: p_ in mtime
+            model.ext["os.path.getmtime"] = lambda it, p_, mtime=mtime: mtime[p_]
+            model.ext["os.stat"] = lambda it, p_, mtime=mtime: Row({"st_mtime": mtime[p_], "st_mtime_ns": mtime[p_] * 10 ** 9}) if p_ in mtime else (_ for _ in ()).throw(Raised("FileNotFoundError", p_))
+
+            def index(it, fname, *a, mtime=mtime, long_name=long_name, **k):
+                mtime[long_name] = 200            # samtools index writes X.bam.bai / X.cram.crai
+            model.ext["pysam.index"] = index
+            model.ext["pathlib.PurePath"] = lambda it, p_: Row({"suffix": "." + p_.rsplit(".", 1)[1] if "." in p_ else "", "name": p_.rsplit("/", 1)[-1]})
+            it = Interp(prog, model)
+            out = tb.guard(lambda: ("v", it.run(fi.qn, [aln])), f"{ext}: {idx} long={first} short={second}")
+            if out is None:
+                continue
+            opened = long_name if long_name in mtime else (short_name if short_name in mtime else None)
+            ok = opened is not None and mtime[opened] >= mtime[aln]
+            tb.cell(ok, dict(alignment=aln, long_index=first, short_index=second, index_htslib_opens=opened, its_mtime=mtime.get(opened), alignment_mtime=mtime[aln], returned=out[1]))
+    tb.done("after ensure_bam_index the index that htslib opens first can still be older than the alignment file: reads added since are silently not fetched")
 
 
 def run(chk):
@@ -421,6 +463,7 @@ def run(chk):
     d5(chk, prog)
     d5b(chk, prog)
     d5c(chk, prog)
+    d7(chk, prog)
     chk.clause("D6", "the bins' names reach the read-count path whole: BED readers keep the 4th tab-separated field (C08 rule)")
     C08.d1_bed_names(chk, prog)
 
